@@ -144,6 +144,18 @@ def _run(case):
         if case.get("normals"):
             attr = m.faces.create_attribute("normals", float, 3)
             for f, n in enumerate(case["normals"]): attr[f] = M.Vec(*n)
+        # history: earlier detector runs on the SAME mesh object (other options, other injected normals). The statement is about
+        # each run, whatever ran before: attributes left on the mesh by an earlier run must not leak into this one.
+        for pr in case.get("prior") or []:
+            try:
+                if case.get("normals") and pr.get("normals"):
+                    for f, n in enumerate(pr["normals"]): attr[f] = M.Vec(*n)
+                M.processing.FeatureEdgeDetector(only_border=pr["only_border"], flag_corners=pr["flag_corners"], corner_order=pr["order"],
+                                                 compute_feature_graph=pr.get("graph", False), verbose=False).run(m)
+            except Exception as e:  # noqa
+                res["prior_err"] = e
+        if case.get("normals") and case.get("prior"):
+            for f, n in enumerate(case["normals"]): attr[f] = M.Vec(*n)
         det = M.processing.FeatureEdgeDetector(only_border=case["only_border"], flag_corners=case["flag_corners"],
                                                corner_order=case["order"], compute_feature_graph=case.get("graph", False), verbose=False)
         try: det.run(m); res["err"] = None
@@ -326,6 +338,8 @@ def _oracle(case):
                     add("C15/border/polyline/coords", "polyline vertex is not the surface vertex the map names")
         return out
     # ---- features -------------------------------------------------------------------------------
+    if r.get("prior_err") is not None:
+        add(f"C15/features/rerun/raises/{type(r['prior_err']).__name__}", "an earlier FeatureEdgeDetector run on the same mesh raised", r["prior_err"])
     if r["err"] is not None:
         add(f"C15/features/raises/{type(r['err']).__name__}", f"FeatureEdgeDetector.run raised {type(r['err']).__name__}", r["err"]); return out
     det = r["det"]
@@ -450,6 +464,16 @@ def _feat_case(rng, max_faces):
     case = {"t": "f", "V": s["V"], "F": s["F"], "tag": kind + ":" + s["tag"], "normals": normals, "hard": hard,
             "only_border": rng.random() < 0.2, "flag_corners": rng.random() < 0.7, "order": rng.choice([4, 4, 6, 3, 8]),
             "graph": rng.random() < 0.3}
+    if rng.random() < 0.3:
+        # the detector has already run on this mesh object, 1-2 times, with other options (and other injected normals)
+        case["prior"] = []
+        for _ in range(rng.randint(1, 2)):
+            pr = {"only_border": rng.random() < 0.25, "flag_corners": rng.random() < 0.5, "order": rng.choice([4, 6, 3]), "graph": rng.random() < 0.2}
+            if normals is not None:
+                pr["normals"] = [_unit_with_z(rng, rng.choice([-0.5, 0.0, 0.25, 0.6, 0.9, 1.0])) for _ in normals]
+            case["prior"].append(pr)
+        if case["prior"][-1]["only_border"] and rng.random() < 0.5: case["prior"][-1]["only_border"] = False
+        if rng.random() < 0.4: case["only_border"] = True
     # own geometry: stay away from the thresholds (float normalisation); injected normals: every interior edge has one face
     # with normal (0,0,1), so the float dot product IS the z of the other normal, exactly - on-threshold values are kept
     if normals is None:
@@ -501,6 +525,7 @@ def classify(case, obs):
             if x is None: continue
             c = cos_float(x)
             ks.append("cos:" + ("=0.5" if c == 0.5 else "=0.8" if c == 0.8 else "<0.5" if c < 0.5 else "0.5-0.8" if c < 0.8 else ">0.8"))
+        ks.append("history:" + ("fresh-mesh" if not case.get("prior") else f"{len(case['prior'])}-earlier-runs"))
     if obs.startswith("err"): ks.append(obs.split(" ")[0])
     return ks
 
@@ -509,7 +534,8 @@ def describe(case):
     d = {k: case[k] for k in ("t", "tag") if k in case}
     d.update(n_vertices=len(case["V"]), n_faces=len(case["F"]), faces=case["F"][:10])
     if case["t"] == "b": d["starts"] = case["starts"][:10]
-    else: d.update({k: case[k] for k in ("only_border", "flag_corners", "order")}, hard=case["hard"][:10], injected_normals=bool(case.get("normals")))
+    else: d.update({k: case[k] for k in ("only_border", "flag_corners", "order")}, hard=case["hard"][:10], injected_normals=bool(case.get("normals")),
+                   earlier_runs_on_same_mesh=[{k: p[k] for k in ("only_border", "flag_corners", "order")} for p in case.get("prior") or []])
     return d
 
 
@@ -544,6 +570,8 @@ def shrink(case, still):
                 t["hard"] = sorted({new.ecanon[(min(vm[a], vm[b]), max(vm[a], vm[b]))] for e in cur["hard"] for (a, b) in [old.ekeys[e]]
                                     if a in vm and b in vm and (min(vm[a], vm[b]), max(vm[a], vm[b])) in new.ecanon})
                 if cur.get("normals"): t["normals"] = cur["normals"][:k] + cur["normals"][k + 1:]
+                if cur.get("prior"):
+                    t["prior"] = [dict(p, normals=p["normals"][:k] + p["normals"][k + 1:]) if p.get("normals") else p for p in cur["prior"]]
             if ok(t): cur = t; changed = True; break
     return cur
 
